@@ -7,7 +7,7 @@ import numpy as np
 import lightworks as lw
 
 from .. import kernel
-from ..circuit_ops import Env
+from ..circuit_ops import Env, spec_struct
 from ..ref_circuit import RefCircuit, compare_scatter, impl_scatter
 
 PERR = (lw.ParameterValueError, lw.ParameterBoundsError)
@@ -105,7 +105,7 @@ def automaton(env, acc, via_dict):
 # ---------------------------------------------------------------------------
 # part B: parameters inside circuits
 # ---------------------------------------------------------------------------
-TEMPLATES = ["bs", "ps", "loss", "bsloss", "group", "herald", "twice", "nested", "pre_herald", "nonadj", "plus"]
+TEMPLATES = ["bs", "ps", "loss", "bsloss", "group", "herald", "twice", "nested", "pre_herald", "nonadj", "plus", "sandwich"]
 
 
 def make_template(name, p, p2, env):
@@ -133,6 +133,9 @@ def make_template(name, p, p2, env):
     elif name == "nonadj":         # non-adjacent beam splitter and swaps: the in-place rewrites have work to do
         c = lw.Circuit(3); c.mode_swaps({0: 1, 1: 0}); c.bs(2, 0, reflectivity=p, convention="H")
         c.mode_swaps({1: 2, 2: 1}); c.ps(1, p2); c.mode_swaps({0: 2, 2: 0})
+    elif name == "sandwich":       # a swap and its inverse around parametrised elements (which may currently be 0 = identity)
+        c = lw.Circuit(3); c.mode_swaps({0: 1, 1: 2, 2: 0}); c.loss(0, p); c.ps(1, p)
+        c.mode_swaps({1: 0, 2: 1, 0: 2}); c.bs(0, 1)
     elif name == "plus":           # the sum of two circuits follows the parameters of both operands
         a = lw.Circuit(2); a.bs(0, reflectivity=p)
         b = lw.Circuit(2); b.ps(0, p2); b.bs(0, reflectivity=p, convention="H")
@@ -182,6 +185,9 @@ def ref_template(name, v, v2, env):
         if not unit(v): return None
         r = RefCircuit(3); r.swaps({0: 1, 1: 0}); r.bs(2, 0, v, "H"); r.swaps({1: 2, 2: 1}); r.ps(1, v2)
         r.swaps({0: 2, 2: 0})
+    elif name == "sandwich":
+        if not unit(v): return None
+        r = RefCircuit(3); r.swaps({0: 1, 1: 2, 2: 0}); r.loss(0, v); r.ps(1, v); r.swaps({1: 0, 2: 1, 0: 2}); r.bs(0, 1, 0.5)
     elif name == "plus":
         if not unit(v): return None
         r = RefCircuit(2); r.bs(0, 1, v); r.ps(0, v2); r.bs(0, 1, v, "H")
@@ -195,7 +201,7 @@ def ref_template(name, v, v2, env):
     return r
 
 
-N_PARAMS = {"plus": 2, "bs": 1, "ps": 1, "loss": 1, "bsloss": 1, "group": 2, "herald": 2, "twice": 2, "nested": 2, "pre_herald": 2, "nonadj": 2}
+N_PARAMS = {"sandwich": 1, "plus": 2, "bs": 1, "ps": 1, "loss": 1, "bsloss": 1, "group": 2, "herald": 2, "twice": 2, "nested": 2, "pre_herald": 2, "nonadj": 2}
 
 
 class World:
@@ -209,7 +215,19 @@ class World:
 
     def key(self):
         return (snap(self.p), snap(self.p2), tuple(k + ("1" if v is self.p else "2") for k, v in self.pdmap.items()),
-                tuple((c["tmpl"], c["kind"], repr(c["frozen"])) for c in self.circs))
+                tuple((c["tmpl"], c["kind"], repr(c["frozen"]), self.struct(c["circ"])) for c in self.circs))
+
+    @staticmethod
+    def struct(c):
+        # the structure the in-place rewrites leave behind is part of the state: what a later parameter update does
+        # depends on it (parameter values appear as "live" so that the structure, not the value, is what is keyed)
+        def strip(t):
+            if isinstance(t, tuple):
+                if len(t) == 5 and t[0] == "P":
+                    return "P"
+                return tuple(strip(x) for x in t)
+            return t
+        return kernel.fp8(repr(strip(spec_struct(c._get_circuit_spec()))))
 
 
 def apply_b(w, op):
@@ -357,10 +375,21 @@ def explore_b(env, depth):
         + [("make", t) for t in TEMPLATES] + [("copy",), ("freeze",)] \
         + [("rewrite", r) for r in ("unpack", "compress", "remove_nonadj")]
 
-    def build(hist):
+    def observe(w):
+        # what a user does between two steps: look at the circuits (U, parameter list); must not change anything
+        for item in w.circs:
+            try:
+                item["circ"].U
+            except Exception:  # noqa: BLE001
+                pass
+            item["circ"].get_all_params()
+
+    def build(hist, reads=False):
         w = World(env)
         for op in hist:
             apply_b(w, op)
+            if reads:
+                observe(w)
         return w
 
     def expand(hist):
@@ -380,6 +409,13 @@ def explore_b(env, depth):
                 if (snap(w.p), snap(w.p2)) != before:
                     acc.violation("rejected_update_changed_parameter", case, None)
             check_world(w, case, acc)
+            if any(h[0] in ("make", "copy", "freeze") for h in hist):
+                # the same history with the circuits looked at after every step (reads are not part of the state, so
+                # both variants are run from every state rather than making "read" an operation of its own)
+                wr = build(hist, reads=True)
+                apply_b(wr, op)
+                acc.tick("executions")
+                check_world(wr, {**case, "observed_after_every_step": True}, acc)
             acc.outcome("B:%s:%s" % (op[0], res))
             if res == "ok" and w.circs:
                 acc.nontriv(w.key())
@@ -430,4 +466,11 @@ def replay(w, acc):
             apply_b(world, op)
         except kernel.Skip:
             pass
+        if case.get("observed_after_every_step") and op is not None:
+            for item in world.circs:
+                try:
+                    item["circ"].U
+                except Exception:  # noqa: BLE001
+                    pass
+                item["circ"].get_all_params()
     check_world(world, case, acc)
